@@ -315,6 +315,161 @@ def tip_table(tier="quick"):
     return out
 
 
+def _rot_to_quat(R):
+    """Rotation matrix -> quaternion (w, x, y, z) in the convention of geom.quat_to_rot."""
+    from .geom import quat_to_rot
+
+    w = np.sqrt(max(0.0, 1.0 + R[0, 0] + R[1, 1] + R[2, 2])) / 2.0
+    if w > 1e-6:
+        q = np.array([w, (R[2, 1] - R[1, 2]) / (4 * w), (R[0, 2] - R[2, 0]) / (4 * w), (R[1, 0] - R[0, 1]) / (4 * w)])
+    else:
+        x = np.sqrt(max(0.0, 1.0 + R[0, 0] - R[1, 1] - R[2, 2])) / 2.0
+        y = np.sqrt(max(0.0, 1.0 - R[0, 0] + R[1, 1] - R[2, 2])) / 2.0
+        z = np.sqrt(max(0.0, 1.0 - R[0, 0] - R[1, 1] + R[2, 2])) / 2.0
+        q = np.array([0.0, x, y * np.sign(R[0, 1] + 1e-12), z * np.sign(R[0, 2] + 1e-12)])
+    for cand in (q, q * np.array([1, -1, -1, -1])):
+        if np.allclose(quat_to_rot(list(cand)), R, atol=1e-6):
+            return [float(v) for v in cand]
+    return [float(v) for v in q]
+
+
+def _aim_chain(ch, donor, hyd, target, direction, dist, spin=0.0):
+    """Set q / shift of chain descriptor `ch` so that its atom `donor` (residue index, name) sits at
+    `target + dist * direction` and its hydrogen `hyd` points from the donor at the target."""
+    from .geom import rodrigues
+
+    probe = dict(ch, q=[1, 0, 0, 0], shift=[0.0, 0.0, 0.0], hyd="all")
+    probe.pop("contact", None)
+    s0 = build.materialise(dict(chains=[probe]))
+    xyz = {(r["group"][2], r["name"]): r["xyz"] for r in s0.records}
+    u0 = (xyz[hyd] - xyz[donor]) / np.linalg.norm(xyz[hyd] - xyz[donor])  # bond direction in the identity pose
+    # position of the donor in the identity pose of the chain AS IT WILL BE WRITTEN (its centroid
+    # depends on which atoms are present)
+    s1 = build.materialise(dict(chains=[dict(probe, hyd=ch.get("hyd", "none"))]))
+    d0 = next(r["xyz"] for r in s1.records if (r["group"][2], r["name"]) == donor)
+    cen0 = np.zeros(3)
+    u1 = -np.asarray(direction, float) / np.linalg.norm(direction)  # donor -> hydrogen points back at the target
+    axis = np.cross(u0, u1)
+    if np.linalg.norm(axis) < 1e-9:
+        R = np.eye(3) if np.dot(u0, u1) > 0 else -np.eye(3) + 2 * np.outer([1, 0, 0], [1, 0, 0])
+    else:
+        ang = np.degrees(np.arctan2(np.linalg.norm(axis), np.dot(u0, u1)))
+        R = rodrigues(np.eye(3), axis / np.linalg.norm(axis), ang).T
+    if spin:
+        R = rodrigues(np.eye(3), u1, spin).T @ R
+    tpos = np.asarray(target, float) + dist * np.asarray(direction, float) / np.linalg.norm(direction)
+    ch["q"] = _rot_to_quat(R)
+    ch["shift"] = [float(v) for v in (tpos - R @ (d0 - cen0))]
+    ch.pop("contact", None)
+    return ch
+
+
+def network_table(tier="quick"):
+    """Directed hydrogen-bond networks (finite table): an acceptor - a water oxygen or a free cysteine
+    SG - with 2-3 fixed donors (indole N-H of GLY-TRP-GLY chains) aimed at it from tetrahedral-like
+    directions at H-bond distance, nothing for it to donate to; plus a partner water placed on / off
+    the tetrahedral cone.  These reach the optimiser's 'accepts several, donates none' branches
+    (three-bond hydrogen placement, lone-pair bookkeeping) that random placements rarely do."""
+    out = []
+
+    def donor_chain(cid, k):
+        return dict(id=cid, start=10 * (k + 1), seq=["GLY", "TRP", "GLY"], phi=[-70.0] * 3, psi=[140.0, 135.0, 145.0],
+                    chi=[[-60.0, 90.0, 60.0, 180.0, -60.0]] * 3, hyd="none", oxt=True, q=[1, 0, 0, 0], ter=True)
+
+    tetra = [np.array(v, float) for v in ([1, 1, 1], [1, -1, -1], [-1, 1, -1], [-1, -1, 1])]
+    spins = [0.0, 120.0] if tier == "quick" else [0.0, 60.0, 120.0, 200.0]
+    # (a) water between two / three donors
+    for nd in (2, 3):
+        for dist in ([2.9] if tier == "quick" else [2.8, 2.9, 3.0]):
+            for open_angle in (0.0, 12.0, -10.0):
+                for spin in spins:
+                    centre = np.array([30.0, 30.0, 30.0])
+                    chains = []
+                    for k in range(nd):
+                        u = tetra[k].copy()
+                        if k == 1 and open_angle:
+                            from .geom import rodrigues
+
+                            u = rodrigues(u[None], np.cross(tetra[0], tetra[1]) / np.linalg.norm(np.cross(tetra[0], tetra[1])), open_angle)[0]
+                        chains.append(_aim_chain(donor_chain("ABC"[k], k), (1, "NE1"), (1, "HE1"), centre, u, dist, spin + 40.0 * k))
+                    waters = [dict(xyz=[float(v) for v in centre], chain="W", seq=300)]
+                    for extra in ([], [[3, 2.8, 0.0]], [[3, 2.8, 28.0]]):
+                        ws = list(waters)
+                        for (k, d2, off) in extra:
+                            u = tetra[k] / np.linalg.norm(tetra[k])
+                            if off:
+                                from .geom import rodrigues
+
+                                u = rodrigues(u[None], np.cross(tetra[0], tetra[3]) / np.linalg.norm(np.cross(tetra[0], tetra[3])), off)[0]
+                            ws.append(dict(xyz=[float(v) for v in centre + d2 * u], chain="W", seq=301 + k))
+                        out.append(dict(desc=dict(chains=[dict(c) for c in chains], waters=ws), label=f"water-{nd}-donors"))
+    # (c) five-water clusters: a centre water with four water neighbours on the tetrahedral directions at
+    # increasing O...O distances (the optimiser works through candidate bonds by distance), one of them
+    # turned off the tetrahedral cone so that the centre ACCEPTS from it instead of donating: the centre
+    # ends up accepting two and donating two, the last hydrogen through the only free position
+    from .geom import rodrigues as _rod
+
+    pep = dict(id="P", start=1, seq=["GLY", "ALA", "GLY"], phi=[-70.0] * 3, psi=[140.0, 135.0, 145.0],
+               chi=[[-60.0, 180.0, 60.0, 180.0, -60.0]] * 3, hyd="none", oxt=True, q=[1, 0, 0, 0], shift=[0.0, 0.0, 0.0], ter=True)
+    for dists in ([2.6, 2.7, 2.8, 2.9], [2.75, 2.8, 2.85, 2.9]):
+        for off_idx in (1, 0, 2):
+            for off in ([28.0, 0.0] if tier == "quick" else [0.0, 15.0, 22.0, 28.0, 35.0]):
+                for grot in ([0.0, 47.0] if tier == "quick" else [0.0, 33.0, 47.0, 101.0]):
+                    centre = np.array([52.5, 48.25, 61.0])
+                    dirs = [t / np.linalg.norm(t) for t in tetra]
+                    ws = []
+                    seqs = [301, 303, 304, 305]
+                    for k in range(4):
+                        u = dirs[k]
+                        if k == off_idx and off:
+                            ax = np.cross(dirs[k], dirs[(k + 1) % 4])
+                            u = _rod(u[None], ax / np.linalg.norm(ax), off)[0]
+                        if grot:
+                            u = _rod(u[None], np.array([0.3, 0.5, 0.81]) / np.linalg.norm([0.3, 0.5, 0.81]), grot)[0]
+                        ws.append(dict(xyz=[float(v) for v in centre + dists[k] * u], chain="W", seq=seqs[k]))
+                    ws.insert(1, dict(xyz=[float(v) for v in centre], chain="W", seq=302))
+                    out.append(dict(desc=dict(chains=[dict(pep)], waters=ws), label="water-cluster"))
+    # (b) free cysteine SG with 2-3 donors on the positions opposite to CB
+    for nd in (2, 3):
+        for dist in ([3.3] if tier == "quick" else [3.2, 3.4, 3.6]):
+            for spin in spins:
+                acc = dict(id="S", start=1, seq=["GLY", "CYS", "GLY"], phi=[-70.0] * 3, psi=[140.0, 135.0, 145.0],
+                           chi=[[-60.0, 180.0, 60.0, 180.0, -60.0]] * 3, hyd="none", oxt=True, q=[1, 0, 0, 0], shift=[0.0, 0.0, 0.0], ter=True)
+                s0 = build.materialise(dict(chains=[dict(acc)]))
+                xyz = {(r["group"][2], r["name"]): r["xyz"] for r in s0.records}
+                sg, cb = xyz[(1, "SG")], xyz[(1, "CB")]
+                axis = (sg - cb) / np.linalg.norm(sg - cb)
+                # three directions at 109.5 deg from SG->CB ... i.e. 70.5 deg from the CB->SG axis, 120 deg apart
+                perp = np.cross(axis, [0.3, 0.5, 0.8])
+                perp /= np.linalg.norm(perp)
+                from .geom import rodrigues
+
+                chains = [acc]
+                for k in range(nd):
+                    base = np.cos(np.radians(70.5)) * axis + np.sin(np.radians(70.5)) * perp
+                    u = rodrigues(base[None], axis, 120.0 * k + 15.0)[0]
+                    chains.append(_aim_chain(donor_chain("ABC"[k], k), (1, "NE1"), (1, "HE1"), sg, u, dist, spin + 50.0 * k))
+                out.append(dict(desc=dict(chains=[dict(c) for c in chains], waters=[]), label=f"cys-{nd}-donors"))
+    return out
+
+
+def network_cases(part, tier="quick", only=None):
+    """Case dicts over the directed network table (force fields and opt switch cycling)."""
+    import copy
+
+    out = []
+    ffs = ["AMBER", "PARSE", "CHARMM", "TYL06"]
+    k = 0
+    for item in network_table(tier):
+        if only and not item["label"].startswith(only):
+            continue
+        for opts in ([], ["--noopt"]):
+            k += 1
+            out.append(dict(part=part, desc=copy.deepcopy(item["desc"]), ff=ffs[k % len(ffs)], opts=list(opts), wild=False, every=1,
+                            net=item["label"]))
+    return out
+
+
 def draw_titration(draw, desc, p=3):
     """Optional titration route: harness pKa source (PROPKA's row format) with drawn pKa values."""
     if draw(st.integers(0, p - 1)) != 0:
